@@ -50,28 +50,50 @@ def check(run):
         except BaseException as e:      # re-raised in the main thread
             ct_box["e"] = e
 
-    th = threading.Thread(target=ct_thread)
+    th = threading.Thread(target=ct_thread, daemon=True)
     th.start()
-    # cheap, structured parts first (they contain the known hard inputs)
+    tmo = 600 if quick else 2400
+    # Pass 1: everything that does not call find_prime_factor.  The factor finder relies on is_prime
+    # and on the modular helpers and need not terminate when those are wrong, so it is only run
+    # (pass 2) when pass 1 produced no violation other than known findings.
     take(L.explore_wrapsq(run, col, exes["wrapsq"], 1 << (26 if quick else 30), "a"))
-    take(L.explore_families(run, col, exes["families"], tier))
+    fam1 = L.explore_families(run, col, exes["families"], tier, False, tmo)
     take(L.explore_modcube(run, col, exes["modcube"], exes["modcube_san"], tier))
     take(L.explore_replica(run, tier))
-    # exhaustive range
-    if quick:
-        take(L.explore_sieve(run, col, exes["sieve"], 26, max(30, left() - 10)))
+    sw = L.SieveSweep(run, col, exes["sieve"], 26 if quick else 32)
+    first, second = L.sieve_plan(sw.limit_log2)
+    sw.sweep(first, max(30, left() * (0.45 if quick else 0.5)), tmo)
+    gate = not run.violations
+    if gate:
+        take(L.explore_families(run, col, exes["families"], tier, True, tmo))
+        colls = [c["n"] for c in cov.get("wrap_collision_list", [])]
+        if colls:
+            r = L.run_bin(exes["single"], ["prime"] + colls, timeout=tmo)
+            col.add_all(r.get("V", []), "find_prime_factor on the wrap-collision inputs")
+            cov["wrap_collisions_factored"] = sum(s["evals_factor"] for s in r.get("S", []))
+            evals += cov["wrap_collisions_factored"]
+        reserve = 10 if quick else (200 if left() > 500 else 60)
+        sw.sweep(second, max(30, left() - reserve), tmo)
     else:
-        # reserve ~150 s for the extended wrap-collision cells after the sieve passes
-        take(L.explore_sieve(run, col, exes["sieve"], 32, max(60, left() - 200)))
-        if left() > 120:
-            budget = 1 << 34 if left() > 400 else 1 << 32
-            r = L.explore_wrapsq(run, col, exes["wrapsq"], budget, "b")
-            r[0]["wrap_first_pass_A_values"] = cov.get("wrap_A_values")
-            take(r)
+        take(fam1)
+        cov["find_prime_factor_passes_skipped"] = (
+            "pass 1 (is_prime / modular helpers) reported violations; find_prime_factor depends on "
+            "them and may not terminate, so it was not swept")
+    take(sw.coverage())
+    if not quick and gate and left() > 120:
+        budget = 1 << 34 if left() > 400 else 1 << 32
+        r = L.explore_wrapsq(run, col, exes["wrapsq"], budget, "b")
+        r[0]["wrap_first_pass_A_values"] = cov.get("wrap_A_values")
+        take(r)
     th.join()
     if "e" in ct_box:
-        raise ct_box["e"]
-    take(ct_box["r"])
+        # e.g. the library headers themselves no longer compile (mag<N>() of a constant trips the
+        # Prime<N> static_assert).  Run-time violations already found must not be masked by that.
+        if not run.violations or not isinstance(ct_box["e"], core.InfraError):
+            raise ct_box["e"]
+        cov["ct_infrastructure_error"] = str(ct_box["e"])[-600:]
+    else:
+        take(ct_box["r"])
     full = (cov["sieve_is_prime_exhaustive_below"] == 1 << cov["sieve_limit_log2"] and
             cov["sieve_find_prime_factor_exhaustive_below"] == 1 << cov["sieve_limit_log2"])
     cov.update({
